@@ -53,6 +53,7 @@ class AV:
     cls: FrozenSet[str] = frozenset()
     funcs: FrozenSet[str] = frozenset()  # callable targets (repo qualnames or external dotted names)
     depth: int = 0
+    items: Tuple["AV", ...] = ()  # per-position values of a fresh tuple of known arity (`return a, b` / `x, y = f()`)
 
     @property
     def fresh(self):
@@ -74,9 +75,12 @@ def join(a: Optional[AV], b: Optional[AV]) -> Optional[AV]:
     e = join(a.elem, b.elem)
     if e is not None and e.depth > 3:
         e = replace(e, elem=None, depth=0)
+    items = ()
+    if a.items and len(a.items) == len(b.items):
+        items = tuple(join(x, y) for x, y in zip(a.items, b.items))
     return AV(a.is_ | b.is_, e, a.kind if a.kind == b.kind else ("unknown" if "none" not in (a.kind, b.kind)
                                                                 else (a.kind if b.kind == "none" else b.kind)),
-              a.cls | b.cls, a.funcs | b.funcs, (e.depth + 1) if e is not None else 0)
+              a.cls | b.cls, a.funcs | b.funcs, (e.depth + 1) if e is not None else 0, items)
 
 
 def joins(avs) -> AV:
@@ -626,6 +630,10 @@ class FunctionAnalysis:
             if isinstance(value_node, (ast.Tuple, ast.List)) and len(value_node.elts) == len(target.elts):
                 for t, vn in zip(target.elts, value_node.elts):
                     self.assign(t, self.eval(vn, env, quiet=True), env, vn, st)
+            elif v.items and len(v.items) == len(target.elts) and not v.is_ \
+                    and not any(isinstance(t, ast.Starred) for t in target.elts):
+                for t, iv in zip(target.elts, v.items):
+                    self.assign(t, iv, env, None, st)
             else:
                 e = elem_of(v)
                 for t in target.elts:
@@ -782,7 +790,10 @@ class FunctionAnalysis:
                 return AV(kind=kind)
             e = joins(es)
             alias = AV(e.is_, e.elem, e.kind, e.cls, e.funcs)
-            return container(kind, alias)
+            r = container(kind, alias)
+            if kind == "tuple" and not any(isinstance(x, ast.Starred) for x in n.elts):
+                r = replace(r, items=tuple(es))
+            return r
         if isinstance(n, ast.Dict):
             vs = [self.eval(v, env) for v in n.values if v is not None]
             for k in n.keys:
@@ -912,6 +923,9 @@ class FunctionAnalysis:
         if base.kind in ("list", "tuple"):
             if isinstance(slice_node, ast.Slice):
                 return container(base.kind, elem_of(base) if (base.is_ or base.elem) else None)
+            if base.items and not base.is_ and isinstance(slice_node, ast.Constant) and isinstance(slice_node.value, int) \
+                    and -len(base.items) <= slice_node.value < len(base.items):
+                return base.items[slice_node.value]
             return elem_of(base)
         if base.kind == "dict":
             return elem_of(base)
@@ -1137,6 +1151,8 @@ class FunctionAnalysis:
             r = joins(outs)
             if av.kind != "unknown" and r.kind == "unknown":
                 r = replace(r, kind=av.kind)
+        if av.items and not outs and depth < 3:
+            r = replace(r, items=tuple(self.subst_av(x, binding, depth + 1) for x in av.items))
         return r
 
     def apply_summary(self, s: Summary, fi: FunctionInfo, pos, kwargs, n, env, star=(), self_origin=None) -> AV:
